@@ -45,7 +45,7 @@ func TestC15bStoredValues(t *testing.T) {
 			},
 			"brokerSend2": func(rt *rapid.T) {
 				c := h.Current()
-				if c == nil || !c.State.Accepted {
+				if c == nil || !c.Accepted() {
 					rt.Skip("no connection")
 				}
 				h.brokerSend(2, rapid.IntRange(0, 30).Draw(rt, "len"))
